@@ -43,7 +43,7 @@ Print Assumptions C20_simplify_safe.
 
 (* the same for any distance type, distance function and comparison (no floating point involved) *)
 Theorem C20_simplify_safe_generic : forall D d2 ltD dmax dzero p (e : D) closed,
-  exists r, simplify_gen D d2 ltD dmax dzero p e closed = Ok r.
+  exists r, simplify_gen pt D d2 ltD dmax dzero p e closed = Ok r.
 Proof. exact simplify_safe. Qed.
 Print Assumptions C20_simplify_safe_generic.
 
@@ -109,7 +109,7 @@ Theorem C20_rdp_bound_generic : forall D d2 leD (dzero : D) p eps,
   (forall a b, leD a a = true -> leD b b = true -> leD a b = false -> leD b a = true) ->
   (forall a b c, In a p -> In b p -> In c p -> leD (d2 a b c) (d2 a b c) = true) ->
   (forall x a, In x p -> In a p -> leD (d2 x a x) eps = true) ->
-  forall fl, (5 <= length p)%nat -> rdp_flags D d2 leD dzero p eps = Ok fl -> rdp_bad D d2 leD p fl eps = [].
+  forall fl, (5 <= length p)%nat -> rdp_flags pt pt_eqb D d2 leD dzero p eps = Ok fl -> rdp_bad pt D d2 leD p fl eps = [].
 Proof. exact rdp_bound_gen. Qed.
 Print Assumptions C20_rdp_bound_generic.
 
